@@ -272,6 +272,7 @@ type prioSys struct {
 type prioBuild struct {
 	Ver     string
 	Div     divFn
+	DivV1   v1prio.Divider // v1 variants: used instead of Div when set
 	H       uint
 	Inputs  []*pInput
 	OutCap  int // v1
@@ -282,6 +283,10 @@ type prioBuild struct {
 
 func buildPrio(b prioBuild) (*prioSys, error) {
 	s := &prioSys{ver: b.Ver, H: b.H}
+	divV1 := b.DivV1
+	if divV1 == nil && b.Div != nil {
+		divV1 = asV1(b.Div)
+	}
 	switch b.Ver {
 	case "v2":
 		inputs := map[uint]<-chan PItem{}
@@ -330,7 +335,7 @@ func buildPrio(b prioBuild) (*prioSys, error) {
 		out := make(chan v1prio.Prioritized[PItem], b.OutCap)
 		fb := make(chan uint, b.FbCap)
 		ctx, cancel := context.WithCancel(context.Background())
-		d, err := v1prio.New(v1prio.Opts[PItem]{Ctx: ctx, Divider: asV1(b.Div), Feedback: fb, HandlersQuantity: b.H, Inputs: inputs, Output: out})
+		d, err := v1prio.New(v1prio.Opts[PItem]{Ctx: ctx, Divider: divV1, Feedback: fb, HandlersQuantity: b.H, Inputs: inputs, Output: out})
 		if err != nil {
 			cancel()
 			return nil, err
@@ -426,7 +431,7 @@ func buildPrio(b prioBuild) (*prioSys, error) {
 			}
 			s.returned.Add(1)
 		}
-		d, err := v1prio.NewSimple(v1prio.SimpleOpts[PItem]{Ctx: ctx, Divider: asV1(b.Div), Handle: handle, HandlersQuantity: b.H, Inputs: inputs})
+		d, err := v1prio.NewSimple(v1prio.SimpleOpts[PItem]{Ctx: ctx, Divider: divV1, Handle: handle, HandlersQuantity: b.H, Inputs: inputs})
 		if err != nil {
 			cancel()
 			return nil, err
